@@ -79,6 +79,14 @@ DESCR = {
  "C15-d": ("IP family of an accepted connection taken from the length of the local IP", "dual-stack wildcard listener (16-byte IPv4-mapped local IP) with an IPv4 client"),
  "C16-c": ("tcptype extension only interpreted when the transport token starts with tcp", "candidate marshalled as 'udp … tcptype x' (constructor with UDP network + TCP type, or mDNS host)"),
  "C16-d": ("extensionsEqual tests 'other ⊆ own' instead of multiset equality", "parsed candidates whose equal-length extension lists repeat an identical entry"),
+ "C17-c": ("TCP type-preference guard compares the offset with the constant 126 instead of the candidate's base preference", "TCP network type with srflx (offsets 101..125) or prflx (offsets 111..125)"),
+ "C17-d": ("Priority() memoizes its value; SetComponent / attaching to an agent do not clear it", "read the priority, then SetComponent(n) or start() with a non-default TCP offset, then read again"),
+ "C18-c": ("extra sockets of a multi-IP srflx rewrite rule get (portMin, portMax) swapped", "srflx rewrite rule with ≥ 2 external IPs and a port range (one-sided or closed)"),
+ "C18-d": ("the continual-gathering network monitor runs under the loop context instead of the cycle context", "GatherContinually, GatherCandidates, Restart, then a new interface address appears"),
+ "C19-c": ("validateIPString classifies IPv4-mapped IPv6 text as IPv6 (netip Is4)", "a rule (External, Local or a legacy entry) written in IPv4-mapped form such as ::ffff:203.0.113.7"),
+ "C19-d": ("a valid legacy ext/local pair resets the 'catch-all already seen' memory", "legacy list: catch-all, then an explicit pair, then a second catch-all of the same family"),
+ "C20-c": ("replacePairRemote no longer copies deferredNominationValue", "controlled agent: renomination from an unsignalled address (prflx + deferred), AddRemoteCandidate supersedes it before the triggered check is answered, target has lower priority"),
+ "C20-d": ("controlled side compares nomination values with 24-bit serial-number arithmetic", "two values at least 2^23 apart (timestamp/stride generators, jump to 0xFFFFFF)"),
 }
 res = {}
 for ln in open('/verif/.work/confirm_results.txt'):
